@@ -14,6 +14,7 @@
 """Output formatting.
 """
 import doctest
+import hashlib
 import io
 import os
 import re
@@ -1486,6 +1487,19 @@ def parse_unittest(test):
     return testSuite, testName, testClassName
 
 
+def _report_file_stem(name):
+    """The name of a suite's report file (without the extension)."""
+    # a suite name may contain what a file name cannot ...
+    stem = re.sub(r'[/\\\0]', '_', name)
+    # ... and may be longer than a file name can be (255 bytes on most file
+    # systems): shorten it, keeping it unique
+    encoded = stem.encode('utf-8', 'surrogatepass')
+    if len(encoded) > 200:
+        stem = '%s-%s' % (encoded[:150].decode('utf-8', 'ignore'),
+                          hashlib.sha1(encoded).hexdigest())
+    return stem
+
+
 class XMLOutputFormattingWrapper:
     """Output formatter which delegates to another formatter for all
     operations, but also prepares an element tree of test output.
@@ -1567,9 +1581,7 @@ class XMLOutputFormattingWrapper:
         reportsDir.mkdir(exist_ok=True)
 
         for name, suite in self._testSuites.items():
-            # a suite name may contain what a file name cannot
-            filename = reportsDir / (
-                re.sub(r'[/\\\0]', '_', name) + '.xml')
+            filename = reportsDir / (_report_file_stem(name) + '.xml')
 
             testSuiteNode = ElementTree.Element('testsuite')
 
